@@ -183,14 +183,6 @@ def _close(got, exp, exact):
     return abs(got - exp) <= 2e-5 * (1.0 + abs(exp))
 
 
-def _cmp(rows_got, rows_exp, exact, where):
-    """rows_got: nested list (.., V) of floats; rows_exp likewise"""
-    for g, e in zip(rows_got, rows_exp):
-        if g != e and not _close(g, e, exact):
-            return False
-    return True
-
-
 # ---------------------------------------------------------------------------------------------
 # building the real model
 
@@ -717,7 +709,7 @@ def reduced_tables(ctx, salt):
     for V, sos in _configs2():
         yield from enum_tables(V, sos, 1, three_state_upto=1, T=3)
         yield from enum_tables(V, sos, 2, stride=1 if not ctx.quick else 1, inf_variants=1, T=4)
-    stride = 48 if ctx.quick else 3
+    stride = 48 if ctx.quick else 6
     for V, sos in _configs2():
         yield from enum_tables(V, sos, 3, stride=stride, offset=ctx.seed + salt, inf_variants=1, T=4)
     rng = random.Random(ctx.seed * 104729 + salt)
@@ -973,7 +965,7 @@ def run_bounded(ctx):
     ctxb.bounded("C06.katz.chunked", check_chunked, cases_chunked(ctx),
                 bound="tables: 1 symbol orders 1..4 three-state; 2 symbols order 1 three-state, order 2 every subset (+ -inf pattern), order 3 every %d-th subset of each (V,sos); %d sampled order 2..4 "
                       "tables, %d random-float tables; per table EVERY T in 0..4 (0..5 for sampled order 4), EVERY chunk_size in 1..T+2, contiguous and transposed-view hist, all histories of length T"
-                      % (48 if q else 3, 250 if q else 6000, 100 if q else 3000),
+                      % (48 if q else 6, 250 if q else 6000, 100 if q else 3000),
                 text="calc_full_log_probs_chunked(hist, {}, chunk_size) == oracle at all positions, for every chunk size",
                 nontrivial=_sparse, chunk=16, functions=["_lm.LookupLanguageModel.calc_full_log_probs_chunked", "_lm._lookup_calc_idx_log_probs"])
     ctxb.bounded("C06.katz.idx", check_idx, cases_idx(ctx),
